@@ -300,6 +300,21 @@ theorem C19_names_and_length (p : GenParams) (n : Nat) (g : GenState) (l : List 
     obtain ⟨i, _, hi⟩ := this
     omega
 
+/-- **C19 (names across iterations).** Two successive iterations of one generator (the second starting from the state
+the first left) never share a name: the counter is not reset by `__iter__`. -/
+theorem C19_names_across_passes (p : GenParams) (n1 n2 : Nat) (g g1 g2 : GenState) (l1 l2 : List (Instance × Nat))
+    (h1 : iterate p n1 g = .ok (l1, g1)) (h2 : iterate p n2 g1 = .ok (l2, g2)) :
+    ∀ x ∈ l1, ∀ y ∈ l2, x.2 ≠ y.2 := by
+  obtain ⟨_, hn1, hc1⟩ := iterate_spec p n1 g l1 g1 h1
+  obtain ⟨_, _, hlow, _⟩ := C19_names_and_length p n2 g1 l2 g2 h2
+  intro x hx y hy
+  have : x.2 ∈ l1.map (·.2) := List.mem_map.2 ⟨x, hx, rfl⟩
+  rw [hn1] at this
+  simp only [List.mem_map, List.mem_range] at this
+  obtain ⟨i, hi, hxi⟩ := this
+  have := hlow y hy
+  omega
+
 /-- **C19 (same seed, same sequence).** The sequence a generator produces is a function of its parameters and its
 own stream only: two generator objects with equal parameters and equal streams produce identical sequences,
 however their construction and use are interleaved — each owns its stream. -/
